@@ -62,10 +62,11 @@ func c18Body(rng *rand.Rand, who int, n int) (string, []c18Member) {
 			parts = append(parts, fmt.Sprintf(`{"jsonrpc":"2.0","id":%s,"method":"m","params":[%q]}`, id, tag))
 		}
 	}
+	pad := []string{"", "", " ", "\n", "\r\n", "\t", " \n "}[rng.Intn(7)]
 	if n == 1 && rng.Intn(2) == 0 {
-		return parts[0], ms
+		return pad + parts[0], ms
 	}
-	return "[" + strings.Join(parts, ",") + "]", ms
+	return pad + "[" + strings.Join(parts, []string{",", ",\n", " , "}[rng.Intn(3)]) + "]" + pad, ms
 }
 
 func TestC18(t *testing.T) {
